@@ -133,12 +133,12 @@ class Case:
             out += v if isinstance(v, list) else self.enc_val(v)
         return out
 
-    def init_line(self, tracks: SolutionTracks) -> str:
+    def init_line(self, tracks: SolutionTracks, plain: bool = False) -> str:
         """The model starts from the state of the real object right after construction
         (registry, active flags and — unless ids are to be assigned — ids are *read from it*);
         with `with_ids=False` the model assigns the ids itself (bulk assignment is compared)."""
         sp = self.spec
-        ta = tracks.track_annotator
+        ta = None if plain else tracks.track_annotator   # plain `Tracks`: no track annotator, no ids
         toks: list[str] = ["S", "init", str(len(sp["nodes"]))]
         for n in sp["nodes"]:
             nid = n["id"]
@@ -153,8 +153,8 @@ class Case:
                 for k in self.rp_active(tracks):
                     px = self.pixels_of(tracks, nid)
                     other[k] = ["m", str(len(px))] + [str(p) for p in px] if px else ["n"]
-            tid = n["tid"] if self.with_ids else 0
-            lin = n["lin"] if self.with_ids else -1
+            tid = n["tid"] if (self.with_ids and not plain) else 0
+            lin = n["lin"] if (self.with_ids and not plain) else -1
             toks += [str(nid), str(n["time"]), str(tid), str(lin)] + self.enc_attrs(other)
         toks.append(str(len(sp["edges"])))
         iou_on = self.iou_active(tracks)
@@ -171,7 +171,7 @@ class Case:
         else:
             toks.append("-")
         feats = tracks.features
-        lin_on = "lineage_id" in feats and "lineage_id" in ta.features
+        lin_on = (not plain) and "lineage_id" in feats and "lineage_id" in ta.features
         toks.append("1" if lin_on else "0")
         toks += [str(len(self.pos_keys))] + [str(k) for k in self.pos_keys]
         reg_node = sorted(self.namekey[k] for k, f in feats.items()
@@ -185,7 +185,7 @@ class Case:
         toks += [str(len(rp_act))] + [str(k) for k in rp_act]
         toks.append(str(K_IOU) if self.cfg == "seg" else "-1")
         toks.append("1" if iou_on else "0")
-        if self.with_ids:
+        if self.with_ids and not plain:
             for book in (ta.tracklet_id_to_nodes, ta.lineage_id_to_nodes):
                 toks.append(str(len(book)))
                 for i in sorted(book):
@@ -193,8 +193,8 @@ class Case:
             toks += [str(ta.max_tracklet_id), str(ta.max_lineage_id)]
         else:
             toks += ["0", "0", "0", "0"]
-        toks.append(str(tracks.node_id_counter))
-        toks.append("0" if self.with_ids else "1")
+        toks.append(str(getattr(tracks, "node_id_counter", 1)))
+        toks.append("0" if (self.with_ids or plain) else "1")
         return " ".join(toks)
 
     # ---- helpers on the real object ----------------------------------------------------------
@@ -289,8 +289,9 @@ class Toks:
 
 
 def parse_model_line(line: str) -> tuple[str, dict | None]:
-    if line == "bad-op":
-        return "bad-op", None
+    if line in ("bad-op", "bad-model"):
+        # bad-model: the driver's run-both check of the faithful IoU model failed on the reached state
+        return line, None
     head, _, rest = line.partition(" | ")
     tk = Toks(rest.split())
     st: dict[str, Any] = {}
@@ -343,10 +344,16 @@ def parse_model_line(line: str) -> tuple[str, dict | None]:
 
 
 # ---- canonical state of the real object --------------------------------------------------
-def impl_state(case: Case, tracks: SolutionTracks, refresh_count: int, payload) -> dict:
+class _NoTrackAnnotator:
+    tracklet_id_to_nodes: dict = {}
+    lineage_id_to_nodes: dict = {}
+    features: dict = {}
+
+
+def impl_state(case: Case, tracks: SolutionTracks, refresh_count: int, payload, plain: bool = False) -> dict:
     g = tracks.graph
-    ta = tracks.track_annotator
-    st: dict[str, Any] = {}
+    ta = _NoTrackAnnotator if plain else tracks.track_annotator
+    st: dict[str, Any] = {"plain": plain}
     nodes = {}
     for n, d in g.nodes(data=True):
         other = {}
@@ -386,8 +393,8 @@ def impl_state(case: Case, tracks: SolutionTracks, refresh_count: int, payload) 
     st["l2n"] = {int(k): sorted(int(x) for x in v) for k, v in ta.lineage_id_to_nodes.items()}
     st["t2n_dups"] = any(len(v) != len(set(v)) for v in ta.tracklet_id_to_nodes.values())
     st["l2n_dups"] = any(len(v) != len(set(v)) for v in ta.lineage_id_to_nodes.values())
-    st["next"] = (tracks.get_next_track_id(), tracks.get_next_lineage_id())
-    st["counter"] = tracks.node_id_counter
+    st["next"] = (0, 0) if plain else (tracks.get_next_track_id(), tracks.get_next_lineage_id())
+    st["counter"] = getattr(tracks, "node_id_counter", 0)
     st["hist"] = (len(tracks.action_history.undo_stack), len(tracks.action_history.redo_stack))
     st["refresh"] = refresh_count
     st["payload"] = payload
@@ -469,9 +476,9 @@ def compare(case: Case, model: dict, impl: dict) -> list[tuple[str, str]]:
         a, b = mn[n], rn[n]
         if a["time"] != b["time"]:
             diffs.append(("time", f"node {n} time model {a['time']} impl {b['time']}"))
-        if a["tid"] != b["tid"]:
+        if a["tid"] != b["tid"] and not impl.get("plain"):
             diffs.append(("tid", f"node {n} track id model {a['tid']} impl {b['tid']}"))
-        if a["lin"] != b["lin"] and not impl.get("lin_key_none"):
+        if a["lin"] != b["lin"] and not impl.get("lin_key_none") and not impl.get("plain"):
             diffs.append(("lin", f"node {n} lineage model {a['lin']} impl {b['lin']}"))
         ao = {k: v for k, v in a["other"].items() if v != ("n",)}
         bo = b["other"]
@@ -522,17 +529,19 @@ def compare(case: Case, model: dict, impl: dict) -> list[tuple[str, str]]:
     if model["seg"] != impl["seg"]:
         diffs.append(("seg", "segmentation arrays differ"))
     for fld in ("t2n", "l2n"):
-        if fld == "l2n" and impl.get("lin_key_none"):
+        if (fld == "l2n" and impl.get("lin_key_none")) or impl.get("plain"):
             continue
         a = {k: sorted(v) for k, v in model[fld].items()}
         if a != impl[fld]:
             diffs.append((fld, f"{fld} model {a} impl {impl[fld]}"))
-    if impl.get("lin_key_none"):
+    if impl.get("plain"):
+        pass   # plain Tracks: no track annotator, no id counters
+    elif impl.get("lin_key_none"):
         if model["next"][0] != impl["next"][0]:
             diffs.append(("next", f"next track id model {model['next'][0]} impl {impl['next'][0]}"))
     elif tuple(model["next"]) != tuple(impl["next"]):
         diffs.append(("next", f"next ids model {model['next']} impl {impl['next']}"))
-    if model["counter"] != impl["counter"]:
+    if model["counter"] != impl["counter"] and not impl.get("plain"):
         diffs.append(("counter", f"node id counter model {model['counter']} impl {impl['counter']}"))
     if tuple(model["hist"]) != tuple(impl["hist"]):
         diffs.append(("hist", f"history sizes model {model['hist']} impl {impl['hist']}"))
